@@ -1681,8 +1681,9 @@ func (s *Netceptor) handleMessageData(md *MessageData) error {
 		s.listenerLock.RUnlock()
 		select {
 		case <-pc.context.Done():
-			close(pc.recvChan)
-
+			// the socket was closed while this packet waited for its reader.  The channel is not closed here:
+			// several deliveries can wait at the same time, a second close or a send of another delivery on
+			// the closed channel would panic; readers watch the socket's context instead.
 			return nil
 		case pc.recvChan <- md:
 		}
